@@ -178,6 +178,13 @@ func (s *sess) addAcct(addr []byte, bal *big.Int) *acct {
 
 func (s *sess) emit(op, res string, nontrivial bool) {
 	s.ops = append(s.ops, op)
+	if res == "panic" {
+		// a Go panic inside block execution kills the node (executeTx has no recover): the session ends here,
+		// the half-updated in-memory rank is not an observable state of a running node
+		s.run.Op(op, "panic", true)
+		s.run.Count("panic-in-execution")
+		return
+	}
 	s.run.Op(op, res+" | "+s.obs(), nontrivial)
 }
 
